@@ -308,8 +308,23 @@ def run(ctx, repo):
         n_pairs += 1
         pp, pc = py_preds(pf)
         jp, jc = js_preds(jfun[mod][jq])
-        res_py = sorted(str(x) for x in pp - jp if (pq, 'py', str(x)) not in ALLOW)
-        res_js = sorted(str(x) for x in jp - pp if (pq, 'js', str(x)) not in ALLOW)
+        # a predicate whose subject is a local name unknown to the other side is a renamed temporary: match it by
+        # (comparator, constant) only; if the other side knows the name, the choice of variable is part of the predicate
+        pnames = {jsast.camel(n.id) for n in ast.walk(pf) if isinstance(n, ast.Name)} | {jsast.camel(a.arg) for a in pf.args.args}
+        jnames = {n['name'] for n in jsast.jwalk(jfun[mod][jq]) if n['type'] == 'Identifier'}
+
+        def root(subj):
+            return re.split(r'[.\[(]', subj)[0] if isinstance(subj, str) else subj
+        only_p = set(pp - jp)
+        only_j = set(jp - pp)
+        for x in sorted(only_p, key=str):
+            if root(x[0]) not in jnames:
+                cand = [y for y in only_j if y[1:] == x[1:] and root(y[0]) not in pnames]
+                if cand:
+                    only_p.discard(x)
+                    only_j.discard(cand[0])
+        res_py = sorted(str(x) for x in only_p if (pq, 'py', str(x)) not in ALLOW)
+        res_js = sorted(str(x) for x in only_j if (pq, 'js', str(x)) not in ALLOW)
         for x in res_py:
             ctx.finding('R3', '%s::%s::predicate only in Python %s' % (JS[mod], jq, x), JS[mod], jsast.line(jfun[mod][jq]),
                         'the Python function %s tests %s; its JavaScript port %s has no matching test (the ports have drifted: a '
